@@ -116,8 +116,8 @@ Theorem C19_consistent :
       m = requested_manifest H f at_ o ann /\
       d = result_desc marshal H f m /\
       steps s s' (evs ++ [EvPush RManifest d (marshal m)]) /\ Forall (blob_ev H) evs /\
-      stored (t_bydigest tc) (s_store s') d = true /\
-      Forall (fun x => stored (t_bydigest tc) (s_store s') x = true) (invented H f at_ o).
+      stored (t_key tc) (s_store s') d = true /\
+      Forall (fun x => stored (t_key tc) (s_store s') x = true) (invented H f at_ o).
 Proof. exact ok_consistent. Qed.
 Print Assumptions C19_consistent.
 
@@ -147,7 +147,7 @@ Theorem C19_descriptor_describes_stored :
     wf_store H (s_store s) ->
     pack marshal H f tc fa s at_ o now = (s', Ok d m) ->
     d_dg d = H (marshal m) /\ d_sz d = Z.of_nat (length (marshal m)) /\ d_mt d = kind_mt (m_kind m) /\
-    exists e, In e (s_store s') /\ same_key (t_bydigest tc) d e = true /\
+    exists e, In e (s_store s') /\ same_key (t_key tc) d e = true /\
               H (e_bytes e) = d_dg d /\
               ((forall x y, H x = H y -> x = y) -> e_bytes e = marshal m /\ e_sz e = d_sz d).
 Proof. exact ok_descriptor_describes_stored. Qed.
@@ -162,7 +162,7 @@ Theorem C19_invented_present :
     pack marshal H f tc fa s at_ o now = (s', Ok d m) ->
     forall x, In x (invented H f at_ o) ->
       d_dg x = H empty_json /\ d_sz x = 2%Z /\
-      exists e, In e (s_store s') /\ same_key (t_bydigest tc) x e = true /\ H (e_bytes e) = H empty_json /\
+      exists e, In e (s_store s') /\ same_key (t_key tc) x e = true /\ H (e_bytes e) = H empty_json /\
                 ((forall a c, H a = H c -> a = c) -> e_bytes e = empty_json).
 Proof. exact ok_invented_present. Qed.
 Print Assumptions C19_invented_present.
@@ -174,7 +174,7 @@ Theorem C19_closed :
   forall f tc fa s at_ o now s' d m,
     pack marshal H f tc fa s at_ o now = (s', Ok d m) ->
     forall x, In x (successors m) ->
-      In x (supplied o) \/ stored (t_bydigest tc) (s_store s') x = true.
+      In x (supplied o) \/ stored (t_key tc) (s_store s') x = true.
 Proof. exact ok_closed. Qed.
 Print Assumptions C19_closed.
 
@@ -223,7 +223,7 @@ Definition ex_layer : desc := mkDesc (b "application/octet-stream") (b "sha256:a
 (* v1.1, no config, no layers, target with Exists keyed by digest: Exists, push "{}", push manifest *)
 Example ex_ok :
   exists s' d m,
-    pack toy_marshal toyH FV11 (mkTcfg true true) None (init_state []) (b "application/vnd.example")
+    pack toy_marshal toyH FV11 (mkTcfg true KDigest) None (init_state []) (b "application/vnd.example")
          (mkOpts None None [] None []) (b "2024-02-29T12:00:00Z") = (s', Ok d m) /\
     length (s_events s') = 3%nat /\ length (s_store s') = 2%nat /\
     m_layers m = Some [DescriptorEmptyJSON] /\ wf_store toyH (s_store s').
@@ -245,7 +245,7 @@ Example ex_bad_created :
   let o := mkOpts None None [(AnnotationCreated, b "2023-02-29T12:00:00Z")] None [] in
   ann_get (created_key FV10) (o_ann o) = Some (b "2023-02-29T12:00:00Z") /\
   rfc3339_ok (b "2023-02-29T12:00:00Z") = false /\
-  exists s', pack toy_marshal toyH FV10 (mkTcfg false false) None (init_state []) [] o (b "2024-02-29T12:00:00Z")
+  exists s', pack toy_marshal toyH FV10 (mkTcfg false KFull) None (init_state []) [] o (b "2024-02-29T12:00:00Z")
              = (s', Err EInvalidDateTime) /\ length (s_events s') = 1%nat.
 Proof. vm_compute. repeat split; try reflexivity. eexists; split; reflexivity. Qed.
 
